@@ -107,6 +107,27 @@ def gen_cases(rng, tier, info):
                  "(reopen into_inner)", "(read_stream %s)" % X.enc_str(nm)] + obs_cmds()
         cases.append(Case("overwrite-%d" % first, cmds))
         k += 1
+    # (b3) one StreamReader used the way a parser uses it: a header, a seek to a directory, a block, the position, a rewind
+    for k, size in enumerate((10, 300, 4095, 4097, 8192, 20000)):
+        nm = "seek%d" % size
+        data = [(i * 13 + size) % 256 for i in range(size)]
+        cmds = ["(create %d)" % (k % 3), w(nm, data)]
+        plans = [[("r", 4), ("s", size // 2), ("r", 8), ("p",), ("c", -4), ("r", 2), ("e", -3), ("r", 10), ("s", 0), ("r", 3)],
+                 [("s", max(0, size - 1)), ("r", 5), ("s", 1), ("r", 1), ("c", 0), ("r", size), ("p",)],
+                 [("r", 1), ("c", 100), ("r", 1), ("c", -50), ("r", 60), ("e", 0), ("r", 1), ("e", -size), ("r", 2)]]
+        for _ in range(4):
+            plan = []
+            for _ in range(rng.randint(4, 12)):
+                kind = rng.choice("rrsscep")
+                plan.append((kind, rng.randint(0, size + 10)) if kind in "rs" else
+                            (kind, rng.randint(-20, 20)) if kind == "c" else (kind, -rng.randint(0, min(size, 40))) if kind == "e" else (kind,))
+            plans.append(plan)
+        for plan in plans:
+            cmds.append("(x_read_seek %s (%s))" % (X.enc_str(nm), " ".join("(%s)" % " ".join(map(str, op)) for op in plan)))
+        cmds += ["(reopen %s)" % ["flush", "into_inner", "drop"][k % 3]]
+        for plan in plans[:3]:
+            cmds.append("(x_read_seek %s (%s))" % (X.enc_str(nm), " ".join("(%s)" % " ".join(map(str, op)) for op in plan)))
+        cases.append(Case("seek-%d" % size, cmds))
     # (c) random histories
     n = 40 if tier == "quick" else 1200
     names = ["s1", "Bin.dat", "x", "ab", "AB", "a", "A", "中文", "data_1", "-", "a-b", "long.name.with.dots", "été", "Q" * 40, "/x", "a:b", "䡀x", ""]
@@ -220,6 +241,28 @@ def oracle(ctx):
                 want = "(ok (%s))" % " ".join(map(str, live[nm])) if nm in live else "err"
                 if o != want:
                     report("map", "read_stream(%r) returned %s..., expected %s..." % (nm, o[:60], want[:60]))
+            elif name == "x_read_seek":
+                nm = "".join(map(chr, sx[1]))
+                data = live.get(nm)
+                if data is not None and o.startswith("(ok "):
+                    pos, want = 0, []
+                    for op in sx[2]:
+                        if op[0] == "r":
+                            chunk = data[pos:pos + op[1]] if pos < len(data) else []
+                            want.append(list(chunk)); pos += len(chunk)
+                        elif op[0] == "p":
+                            want.append(pos)
+                        else:
+                            new = op[1] if op[0] == "s" else pos + op[1] if op[0] == "c" else len(data) + op[1]
+                            if new < 0 or new > len(data):
+                                want.append("err")          # the container refuses to seek before the start or past the end; the position stays
+                            else:
+                                pos = new; want.append(pos)
+                    got = X.parse_sx(o)[1]
+                    got = ["err" if g == "err" else g for g in got]
+                    if got != want:
+                        j = next(i2 for i2, (a, b) in enumerate(zip(got + [None], want + [None])) if a != b)
+                        report("map", "one reader on %r: after %r step %d gives %r, the stream holds %r there" % (nm, sx[2][:j + 1][-3:], j, str(got[j])[:60] if j < len(got) else None, str(want[j])[:60] if j < len(want) else None))
             elif name == "streams":
                 got = sorted("".join(map(chr, s)) for s in X.parse_sx(o))
                 if got != sorted(live):
